@@ -23,11 +23,14 @@ type c17Case struct {
 	Valid       bool   `json:"valid"`
 	PortInUse   bool   `json:"port_in_use"`
 	HeldByGldap bool   `json:"held_by_gldap"` // the port is held by another running gldap server instead of a plain listener
-	PortAdd     int    `json:"port_add"`      // added to the port number in the address text (65536: out of range)
-	TLS         bool   `json:"tls"`           // Run is given WithTLSConfig
-	Pollers     int    `json:"pollers"`
-	GoMaxProcs  int    `json:"gomaxprocs"`
-	SpinBefore  int    `json:"spin_before"` // scheduler yields between starting the pollers and calling Run
+	// HoldFamily "v4" / "v6": the (plain) holder occupies the port on ONE loopback family only (127.0.0.1 or ::1).
+	// Whether a given literal form then collides is decided by a reference: net.Listen on the same address fails.
+	HoldFamily string `json:"hold_family,omitempty"`
+	PortAdd    int    `json:"port_add"` // added to the port number in the address text (65536: out of range)
+	TLS        bool   `json:"tls"`      // Run is given WithTLSConfig
+	Pollers    int    `json:"pollers"`
+	GoMaxProcs int    `json:"gomaxprocs"`
+	SpinBefore int    `json:"spin_before"` // scheduler yields between starting the pollers and calling Run
 	// RetryValid: when the first Run fails (as it must for a malformed address or a bound port) the caller
 	// retries Run on the SAME Server with a valid free address, Retries times a failing one first
 	// TimeoutMs > 0: the server is configured WithReadTimeout / WithWriteTimeout of that many ms; IdleMs: once the
@@ -87,13 +90,19 @@ func c17Exec(c c17Case, st *lab.Stats) *lab.Fail {
 			}
 		}
 	} else if c.PortInUse {
-		// hold the port on every loopback family so that any valid form collides
-		for _, a := range []string{fmt.Sprintf("127.0.0.1:%d", port), fmt.Sprintf("[::1]:%d", port)} {
+		// hold the port on every loopback family so that any valid form collides (or on one family only)
+		holders := []string{fmt.Sprintf("127.0.0.1:%d", port), fmt.Sprintf("[::1]:%d", port)}
+		if c.HoldFamily == "v4" {
+			holders = holders[:1]
+		} else if c.HoldFamily == "v6" {
+			holders = holders[1:]
+		}
+		for _, a := range holders {
 			if l, err := net.Listen("tcp", a); err == nil {
 				hold = append(hold, l)
 			}
 		}
-		if len(hold) < 2 {
+		if len(hold) < len(holders) {
 			for _, l := range hold {
 				l.Close()
 			}
@@ -313,13 +322,22 @@ func c17Exec(c c17Case, st *lab.Stats) *lab.Fail {
 		}
 		return nil
 	}
-	return attempt(addr, c.Valid, c.PortInUse)
+	inUse := c.PortInUse
+	if c.PortInUse && c.HoldFamily != "" && !c.HeldByGldap {
+		// reference: does the standard library manage to listen on this literal address next to the holder?
+		if l, err := net.Listen("tcp", addr); err == nil {
+			l.Close()
+			inUse = false
+		}
+		st.Class(fmt.Sprintf("holder-on-%s-only:collides=%v", c.HoldFamily, inUse))
+	}
+	return attempt(addr, c.Valid, inUse)
 }
 
 func TestC17(t *testing.T) {
 	lab.Prop[c17Case]{
 		ID: "C17", Part: "ready",
-		Rule: "rapid: listen addresses valid (127.0.0.1, localhost, empty host, [::1], bare ::1, 0.0.0.0, [::]), malformed (23 forms: empty, no port, empty port, unbalanced brackets, bad IPv4/IPv6, text, bracketed literals with junk before or after the brackets), valid forms with an out-of-range port number (port +- 65536...) and valid-but-port-already-bound (held by a plain listener of the harness or by another running gldap server), each with and without WithTLSConfig (held by the harness on both loopback families); 0..8 poller goroutines spin on Ready() from BEFORE Run is called and the first one that sees true dials immediately; GOMAXPROCS 1/2/4/16; after a failing Run the caller may retry on the SAME Server (0..2 more failing Runs, then a valid free address, pollers again); one valid free case in six runs the server with read/write timeouts of 0/600/1500 ms and connects once more after an idle period longer than the timeouts; oracle = Ready false before Run; Ready true => dial succeeds and a bind is served (also after the idle period); Run error => no poller ever saw true and Ready is false afterwards; non-trivial = failing address or pollers spinning before Run; distinct by hash",
+		Rule: "rapid: listen addresses valid (127.0.0.1, localhost, empty host, [::1], bare ::1, 0.0.0.0, [::]), malformed (23 forms: empty, no port, empty port, unbalanced brackets, bad IPv4/IPv6, text, bracketed literals with junk before or after the brackets), valid forms with an out-of-range port number (port +- 65536...) and valid-but-port-already-bound (held by a plain listener of the harness - on both loopback families, or on one only with a net.Listen reference deciding whether the literal form collides - or by another running gldap server), each with and without WithTLSConfig (held by the harness on both loopback families); 0..8 poller goroutines spin on Ready() from BEFORE Run is called and the first one that sees true dials immediately; GOMAXPROCS 1/2/4/16; after a failing Run the caller may retry on the SAME Server (0..2 more failing Runs, then a valid free address, pollers again); one valid free case in six runs the server with read/write timeouts of 0/600/1500 ms and connects once more after an idle period longer than the timeouts; oracle = Ready false before Run; Ready true => dial succeeds and a bind is served (also after the idle period); Run error => no poller ever saw true and Ready is false afterwards; non-trivial = failing address or pollers spinning before Run; distinct by hash",
 		Gen: func(t *rapid.T) c17Case {
 			c := c17Case{
 				Pollers:    rapid.SampledFrom([]int{0, 1, 2, 4, 8}).Draw(t, "pollers"),
@@ -338,6 +356,11 @@ func TestC17(t *testing.T) {
 			case 1, 2, 3:
 				c.Form, c.Valid, c.PortInUse = rapid.SampledFrom(c17Valid).Draw(t, "validform"), true, true
 				c.HeldByGldap = rapid.Bool().Draw(t, "heldbygldap")
+				if !c.HeldByGldap && rapid.IntRange(0, 1).Draw(t, "onefamily") == 0 {
+					// the holder sits on one loopback family only; literal forms only (no resolver in the reference)
+					c.HoldFamily = rapid.SampledFrom([]string{"v4", "v4", "v6"}).Draw(t, "holdfamily")
+					c.Form = rapid.SampledFrom([]string{"127.0.0.1:%d", ":%d", "[::1]:%d", "0.0.0.0:%d", "[::]:%d"}).Draw(t, "literalform")
+				}
 			default:
 				c.Form, c.Valid = rapid.SampledFrom(c17Valid).Draw(t, "validform"), true
 			}
